@@ -49,7 +49,7 @@ abbrev Use := ClassId × Option Str
 
 /-- cache-free specification of the serializer's walk; the "state" collects the requests -/
 def pureSerialize (U : Universe) (toks : List Tok) : List Use × Except Err (List Str) :=
-  serWalk (σ := List Use) (fun us c p => (us ++ [(c, p)], pureBuild U c p)) toks [] [] []
+  serWalk (σ := List Use) U (fun us c p => (us ++ [(c, p)], pureBuild U c p)) toks [] [] []
 
 /-- the `(class, parent_ns)` pairs a serialisation requests -/
 def serUses (U : Universe) (toks : List Tok) : List Use := (pureSerialize U toks).1
